@@ -136,10 +136,38 @@ def check(run):
     # T
     lpath = os.path.join(tlc.WORK, "total-lex.ndjson")
     ppath = os.path.join(tlc.WORK, "total-parse.ndjson")
-    out, _ = core.run_vh(["total-record", "--seed", run.seed, "--n", 12000 if thorough else 1500, "--maxlen", 200, "--lex-out", lpath, "--parse-out", ppath], timeout=1800)
-    for o in out:
-        if "panic" in o:
-            run.violation("C01/panic", "%s on random input %r" % (o["what"], o["text"][:200]), {"family": "total", "text": o["text"], "what": o["what"]})
+    ntotal = 12000 if thorough else 1500
+    skip, lrecs_all, precs_all = 0, [], []
+    for attempt in range(5):
+        cmd = [core.vh_path(), "total-record", "--seed", str(run.seed), "--n", str(ntotal), "--maxlen", "200", "--lex-out", lpath, "--parse-out", ppath, "--progress", "--skip", str(skip)]
+        rc, outtxt, stalled, errtxt = core.run_stall_watchdog(cmd, stall_s=60)
+        last = None
+        for l in outtxt.splitlines():
+            if not l.startswith("{"):
+                continue
+            try:
+                o = json.loads(l)
+            except Exception:
+                continue
+            if "at" in o:
+                last = o
+            elif "panic" in o:
+                run.violation("C01/panic", "%s on random input %r" % (o["what"], o["text"][:200]), {"family": "total", "text": o["text"], "what": o["what"]})
+        if os.path.exists(lpath):
+            lrecs_all += core.read_ndjson(lpath, tolerant=True)   # a killed process may leave a cut last line
+            precs_all += core.read_ndjson(ppath, tolerant=True)
+        if rc == 0 and not stalled:
+            break
+        if rc == 2:
+            raise tlc.ToolError("total-record tool error: %s" % errtxt[-400:])
+        # the process hung or died on the announced input
+        if last is None:
+            raise tlc.ToolError("total-record died before its first input: %s" % errtxt[-400:])
+        run.violation("C01/hang" if stalled else "C01/abort", "%s on random input %r" % ("no result within 60 s" if stalled else "process aborted (exit %s)" % rc, last["text"][:200]),
+                      {"family": "total", "text": last["text"], "what": "hang" if stalled else "abort"})
+        skip = last["at"] + 1
+    core.write_ndjson(lpath, lrecs_all)
+    core.write_ndjson(ppath, precs_all)
     lrecs = core.read_ndjson(lpath)
     validate_lex(run, lrecs)
     pf.validate_records(run, "total", core.read_ndjson(ppath), "C01", "C01")
